@@ -270,6 +270,7 @@ func c12Run(e *vh.Env, c c12Case, o *vh.Out) {
 	go func() { wg.Wait(); close(finished) }()
 	stopped := false
 	lastProgress, lastDone := time.Now(), int64(-1)
+	shutdownDone := make(chan struct{})
 	stall, stallAll := "", ""
 	analysedTimeouts, analyses := int64(0), 0
 loop:
@@ -289,7 +290,7 @@ loop:
 		}
 		if !stopped && d >= stopAt {
 			stopped = true
-			go shutdownGracefully(sys.Srv, sys.LB, 3*time.Second)
+			go func() { shutdownGracefully(sys.Srv, sys.LB, 3*time.Second); close(shutdownDone) }()
 		}
 		longest := time.Duration(0)
 		for g := range opStart {
@@ -334,9 +335,23 @@ loop:
 		return
 	}
 	if !stopped {
-		shutdownGracefully(sys.Srv, sys.LB, 3*time.Second)
-	} else {
-		time.Sleep(200 * time.Millisecond)
+		go func() { shutdownGracefully(sys.Srv, sys.LB, 3*time.Second); close(shutdownDone) }()
+	}
+	// the shutdown (3 s timeout) has to come back; 30 s of real time is a generous bound after which the goroutines
+	// are examined the same way as for a stalled operation
+	select {
+	case <-shutdownDone:
+	case <-time.After(30 * time.Second):
+		stuck, all := c12Stalled()
+		c12Wedged = true
+		if stuck != "" {
+			path := fmt.Sprintf("%s/stall-%d.txt", e.TmpDir, c.Round)
+			os.WriteFile(path, []byte(all), 0o644)
+			o.Viol("C12|deadlock|"+c12StallFrame(stuck), fmt.Sprintf("%s: the graceful shutdown (timeout 3 s) had not returned after 30 s and goroutines inside Helios stay parked on a lock or wait group with an unchanged stack over 8 s", vh.J(c)), map[string]any{"stuck_goroutines": trunc(stuck, 6000)})
+		} else {
+			o.Inconcl("the graceful shutdown had not returned after 30 s but no goroutine inside Helios is parked on a lock (case %s)", vh.J(c))
+		}
+		return
 	}
 	panics.Range(func(k, v any) bool {
 		o.Viol("C12|panic|"+c12StallFrame(v.(string)), fmt.Sprintf("%s: a worker panicked: %v", vh.J(c), k), map[string]any{"stack": v})
